@@ -117,8 +117,8 @@ func (manager *TaskManager) Create(pip pipservices.Pip) (result pipservices.Task
 		childScope.Close()
 		return nil, err
 	}
-	// add oLogger to oBroadcast
-	manager.tasks[taskname] = task
+	// a submission is registered only once it has been accepted: a rejected one must not
+	// stay behind as a task that never finishes (Wait and every later waiter would hang)
 	if err = manager.validWaitList([]string{taskname}, task, 100); err != nil {
 		childScope.Close()
 		return nil, err
@@ -127,6 +127,7 @@ func (manager *TaskManager) Create(pip pipservices.Pip) (result pipservices.Task
 		childScope.Close()
 		return nil, err
 	}
+	manager.tasks[taskname] = task
 	manager.wg.Add(1)
 	return task, nil
 }
